@@ -13,6 +13,7 @@
     * render_total    — message and quotation builders are total exactly under the stated guards
 -/
 import Tranp.Lemmas.Errors
+import Tranp.Lemmas.ErrorsRun
 
 namespace Tranp.C07
 open Tranp Tranp.Errors Tranp.Generated.ErrorsTable
@@ -375,5 +376,169 @@ example :
 /-- beyond the last line the builder raises (this is the only way `__build_quotation` can fail on a decodable file) -/
 example : (match buildQuotation .node true ['a'] [['x','\n']] ⟨3, 1, 3, 2⟩ with | .error _ => true | .ok _ => false) = true := by
   decide
+
+
+/-! ### Termination of the modelled drivers ("processing terminates")
+
+  Parser side: the self-hosted parser terminates by `Tranp.C11.T1_termination` (fuel linear in the number of tokens for every
+  well-formed rule set, lean/Tranp/Props/C11.lean); for lark (LALR(1) table driver + PythonIndenter) termination is ASSUMED
+  (third-party code, trusted base) and watched by the 10 s CPU cap of the search. -/
+
+/-- `Procedure.__exec_impl` hands each node of the finite list `flatted` to `__process` at most once. -/
+theorem exec_steps_bounded (h : Nat) (evs : List NodeEv) : runNodesSteps h evs ≤ evs.length := by
+  induction evs generalizing h with
+  | nil => simp [runNodesSteps]
+  | cons ev evs ih =>
+    unfold runNodesSteps
+    cases runNode h ev with
+    | error x => simp
+    | ok h' => have := ih h'; simp only [List.length_cons]; omega
+
+example : runNodesSteps 0 [⟨.own, [], .ok ()⟩, ⟨.missing, [], .ok ()⟩, ⟨.own, [], .ok ()⟩] = 2 := by decide
+
+/-- `Modules.unload` terminates for EVERY import graph — cycles and self-imports included — with fuel "registered modules + 1":
+    the module is removed from the registry before the cascade over its dependents starts, so every recursive call that does
+    anything shrinks the registry. -/
+theorem unload_terminates (g : Graph) (libs registered : List Str) (p : Str) :
+    ∃ r, unloadFuel g libs (registered.length + 1) registered p = some r ∧ r.1.length ≤ registered.length :=
+  visit_terminates (dependents g libs) (registered.length + 1) registered [] p (Nat.lt_succ_self _)
+
+/-- non-vacuity: a ↔ b import each other and a imports itself; unloading a removes both, a first -/
+example :
+    unloadFuel [(['a'], [['b'], ['a']]), (['b'], [['a']])] [] 3 [['a'], ['b']] ['a'] = some ([], [['a'], ['b']]) := by
+  decide
+
+/-- With the order of seeded/C07-4 (cascade first, removal afterwards) the unload of a module that imports from itself exhausts
+    every fuel: on such a tree the real code recurses until RecursionError. (HEAD has the terminating order: `unload_terminates`.) -/
+theorem unload_cascade_first_counterexample (m : Str) :
+    ∀ fuel, visitCascadeFirst (dependents [(m, [m])] []) fuel ([m], []) m = none := by
+  intro fuel
+  have hself : dependents [(m, [m])] [] [m] m = [m] := by
+    simp [dependents, Graph.imports, List.find?]
+  exact cascadeFirst_diverges (dependents [(m, [m])] []) m hself fuel []
+
+/-- `Modules.load` (library modules already registered or none configured) terminates for every import graph with fuel
+    "modules not yet registered + 1": a module is registered before its imports are loaded, so an import cycle meets a registered
+    module. -/
+theorem load_walk_terminates (g : Graph) (unregistered : List Str) (p : Str) :
+    ∃ r, loadWalkFuel g (unregistered.length + 1) unregistered p = some r ∧ r.1.length ≤ unregistered.length :=
+  visit_terminates (fun _ q => g.imports q) (unregistered.length + 1) unregistered [] p (Nat.lt_succ_self _)
+
+example :
+    loadWalkFuel [(['a'], [['b']]), (['b'], [['a'], ['c']])] 4 [['a'], ['b'], ['c']] ['a'] = some ([], [['a'], ['b'], ['c']]) := by
+  decide
+
+/-- The full loader — a non-library module loads the library modules BEFORE it registers itself, looks itself up again, registers,
+    then loads its imports — terminates for every import graph (cycles included) over a closed finite set of modules, with fuel
+    twice the number of modules that are not registered yet. -/
+theorem load_terminates (g : Graph) (libs univ reg : List Str) (p : Str)
+    (hp : p ∈ univ) (hlibs : ∀ l ∈ libs, l ∈ univ) (hclosed : ∀ q ∈ univ, ∀ r ∈ g.imports q, r ∈ univ) :
+    ∃ r, loadFuel g libs true (2 * unreg univ reg) (reg, []) p = some r := by
+  obtain ⟨r, hr, _⟩ := load_ok g libs univ hlibs hclosed (2 * unreg univ reg) reg [] p hp (by split <;> omega)
+  exact ⟨r, hr⟩
+
+/-- non-vacuity: a library that imports the module being loaded (the case the re-check f3f812f exists for); 3 unregistered modules, fuel 6 -/
+example :
+    loadFuel [(['l'], [['m']]), (['m'], [['d']])] [['l']] true 6 ([], []) ['m'] = some ([['l'], ['m'], ['d']], [['l'], ['m'], ['d']]) := by
+  decide
+
+/-- One step of `Interactive.run` is a composition of terminating parts: `step` is a total function of the input's outcome, the
+    outcome itself comes from `unload` (`unload_terminates`), `load` (`load_walk_terminates`), the parser (C11.T1 / lark assumed) and
+    `transpile` = one `exec` (`exec_steps_bounded`); `run` consumes a finite history in `ins.length` steps. -/
+theorem loop_steps_bounded (ins : List Input) : (run ins).2 ≤ ins.length := by
+  induction ins with
+  | nil => simp [run]
+  | cons i is ih =>
+    unfold run
+    cases step i <;> simp <;> omega
+
+/-! ### The transpile stage outside Procedure -/
+
+/-- `Py2Cpp.transpile` is one `Procedure.exec` between a push and a pop with no except clause of its own (shape checked by the
+    translator), so it inherits `proc`: ok / Errors.Error / the handler's own non-Exception — when node properties do not raise. -/
+theorem transpile_normalised (evs : List NodeEv)
+    (hprops : ∀ ev ∈ evs, ∀ x, PropSpec.raises x ∉ ev.props)
+    (hctor : ∀ ev ∈ evs, ∀ x, ev.result = .error x → CtorOk x) :
+    match pyTranspile (.ok ()) evs with
+    | .ok _ => True
+    | .error y => y.inHierarchy = true ∨ (∃ ev ∈ evs, ev.result = .error y ∧ y.isException = false) :=
+  proc evs hprops hctor
+
+/-- Without that hypothesis the transpile stage is NOT normalised: an exception of `root.procedural()` or of a node property
+    evaluated by `__make_event` leaves `Py2Cpp.transpile` raw (escaping site: procedure.py:84 / :191; nothing in
+    Py2Cpp.transpile, Runner._run_impl or Interactive.run converts it — only `__main__` prints it). -/
+theorem transpile_full_counterexample :
+    ¬ (∀ (procedural : Except Exc Unit) (evs : List NodeEv), (∀ ev ∈ evs, ∀ x, ev.result = .error x → CtorOk x) →
+      match pyTranspile procedural evs with
+      | .ok _ => True
+      | .error y => y.inHierarchy = true ∨ y.isException = false) :=
+  proc_full_counterexample
+
+/-- Batch mode (`Runner` under `__main__`): the first failing target ends the run; every `Exception` — member of the hierarchy or
+    not — is printed through ErrorRender and the process ends normally when the render succeeds; only non-Exceptions and render
+    failures leave the process. -/
+theorem main_reports (targets : List Target) (render : Exc → Except Exc Unit) :
+    match runnerRun targets with
+    | .ok n => mainRun targets render = .done n
+    | .error x =>
+      (x.isException = true → (∃ u, render x = .ok u) → mainRun targets render = .reported x) ∧
+      (x.isException = false → mainRun targets render = .crashed x) := by
+  unfold mainRun
+  cases hr : runnerRun targets with
+  | ok n => rfl
+  | error x =>
+    simp only
+    constructor
+    · intro hx ⟨u, hu⟩
+      have hx' : x.cls.isA (.bi .Exception) = true := hx
+      simp [catchesAny, mainCatch, hx', hu]
+    · intro hx
+      have hx' : x.cls.isA (.bi .Exception) = false := hx
+      simp [catchesAny, mainCatch, hx']
+
+example :
+    (match mainRun [⟨.ok (), .ok (), .ok ()⟩, ⟨.ok (), .error (Exc.ofBuiltin .KeyError .other), .ok ()⟩, ⟨.ok (), .ok (), .ok ()⟩] (fun _ => .ok ()) with
+      | .reported x => x.cls.isA (.bi .KeyError) | _ => false) = true := by
+  decide
+
+/-! ### ErrorRender.render as a whole -/
+
+/-- `__build_stacktrace` is total when `traceback.format_exception` returned at least two entries and every entry contains a line
+    feed (CPython ends every entry with one: the header, each frame entry — with or without a readable source line —, the
+    "[Previous line repeated …]" entries, the chaining sentences and the exception lines). Frames outside tranp, missing source
+    files and undecodable source lines only change the TEXT of an entry. -/
+theorem render_stacktrace_total (rootDir : Str) (entries : List TraceEntry)
+    (h2 : 2 ≤ entries.length) (hnl : ∀ e ∈ entries, '\n' ∈ e.text) :
+    ∃ ls, buildStacktrace rootDir entries = .ok ls := by
+  unfold buildStacktrace
+  simp only
+  have hnl' : ∀ t ∈ entries.map (·.text), '\n' ∈ t := by
+    intro t ht
+    obtain ⟨e, he, rfl⟩ := List.mem_map.mp ht
+    exact hnl e he
+  have hlen : (entries.map (·.text)).length = entries.length := List.length_map _
+  obtain ⟨ls, hls⟩ := stackLoop_ok rootDir (entries.map (·.text)) hnl' (by omega) entries 0 (by omega)
+  obtain ⟨l, hl⟩ := secondLine_ok (entries.map (·.text)) hnl' (-2) (by omega)
+  rw [hls, hl]
+  exact ⟨_, rfl⟩
+
+/-- the guard is needed: an exception object that was never raised has a one-entry trace and `traces[-2]` raises IndexError -/
+example : (match buildStacktrace [] [⟨['E', ':', ' ', 'x', '\n'], none⟩] with | .error x => x.cls.isA (.bi .IndexError) | .ok _ => false) = true := by
+  decide
+
+/-- `render()` is defined exactly when its three fallible parts are: stack trace, quotation, message (the name never fails). -/
+theorem render_total_all (fallback : Bool) (rootDir : Str) (entries : List TraceEntry) (quotation : Except Exc (List Str)) (name : Str) (args : List Arg) :
+    (∃ s, renderWith fallback rootDir entries quotation name args = .ok s) ↔
+      ((∃ t, buildStacktrace rootDir entries = .ok t) ∧ (∃ q, quotation = .ok q) ∧ (∃ m, buildMessageWith fallback args = .ok m)) := by
+  unfold renderWith
+  cases buildStacktrace rootDir entries with
+  | error x => simp
+  | ok t =>
+    cases quotation with
+    | error x => simp
+    | ok q =>
+      cases buildMessageWith fallback args with
+      | error x => simp
+      | ok m => simp
 
 end Tranp.C07
